@@ -16,6 +16,16 @@ type genCfg struct {
 	noLike   bool // leave LIKE / NOT LIKE out (there is no LIKE operation to evaluate)
 	maxArgs  int
 	identGen func(t *rapid.T, base string) string // re-spelling of identifiers (letter case, quoting)
+	budget   int                                  // remaining number of operator / call nodes (size control)
+}
+
+// spend takes one unit of the size budget; false = only leaves from here on.
+func (c *genCfg) spend() bool {
+	if c.budget <= 0 {
+		return false
+	}
+	c.budget--
+	return true
 }
 
 func defaultConst(t *rapid.T) string {
@@ -33,10 +43,16 @@ func defaultConst(t *rapid.T) string {
 
 func genExpr(t *rapid.T, cfg *genCfg, depth int) *node { return genLevel(t, cfg, 0, depth) }
 
+// genSized generates a tree with at most `size` operator / call nodes.
+func genSized(t *rapid.T, cfg *genCfg, size int) *node {
+	cfg.budget = size
+	return genLevel(t, cfg, 0, 8)
+}
+
 func genChain(t *rapid.T, cfg *genCfg, lv, depth int, ops []string) *node {
 	l := genLevel(t, cfg, lv+1, depth)
 	for k := 0; k < 3 && depth > 0; k++ {
-		if rapid.IntRange(0, 9).Draw(t, "more") > 3-lvBias(lv) {
+		if rapid.IntRange(0, 9).Draw(t, "more") > 3+lvBias(lv) || !cfg.spend() {
 			break
 		}
 		op := rapid.SampledFrom(ops).Draw(t, "op")
@@ -58,7 +74,7 @@ func genLevel(t *rapid.T, cfg *genCfg, lv, depth int) *node {
 	case 0:
 		return genChain(t, cfg, 0, depth, []string{"AND", "OR", "XOR"})
 	case 1:
-		if depth > 0 && rapid.IntRange(0, 7).Draw(t, "not") == 0 {
+		if depth > 0 && rapid.IntRange(0, 7).Draw(t, "not") == 0 && cfg.spend() {
 			return &node{Op: "not", Kids: []*node{genLevel(t, cfg, 2, depth-1)}}
 		}
 		return genLevel(t, cfg, 2, depth)
@@ -66,7 +82,7 @@ func genLevel(t *rapid.T, cfg *genCfg, lv, depth int) *node {
 		return genChain(t, cfg, 2, depth, []string{"=", "<>", ">", "<", ">=", "<="})
 	case 3:
 		l := genLevel(t, cfg, 4, depth)
-		for k := 0; k < 3 && depth > 0; k++ {
+		for k := 0; k < 3 && depth > 0 && cfg.spend(); k++ {
 			c := rapid.IntRange(0, 19).Draw(t, "addk")
 			switch {
 			case c <= 3:
@@ -91,10 +107,10 @@ func genLevel(t *rapid.T, cfg *genCfg, lv, depth int) *node {
 		// primary
 		k := rapid.IntRange(0, 11).Draw(t, "prim")
 		switch {
-		case depth > 0 && k == 0:
+		case depth > 0 && k == 0 && cfg.spend():
 			n = genExpr(t, cfg, depth-1)
 			n.Par++
-		case depth > 0 && k == 1 && len(cfg.funcs) > 0:
+		case depth > 0 && k == 1 && len(cfg.funcs) > 0 && cfg.spend():
 			name := rapid.SampledFrom(cfg.funcs).Draw(t, "fn")
 			argc := rapid.IntRange(0, cfg.maxArgs).Draw(t, "argc")
 			n = &node{Op: "call", Tok: cfg.ident(t, name)}
@@ -106,13 +122,15 @@ func genLevel(t *rapid.T, cfg *genCfg, lv, depth int) *node {
 		default:
 			n = &node{Op: "const", Tok: cfg.consts(t)}
 		}
-		switch rapid.IntRange(0, 9).Draw(t, "sign") {
-		case 0:
-			n = &node{Op: "neg", Kids: []*node{n}}
-		case 1:
-			n = &node{Op: "pos", Kids: []*node{n}}
+		if cfg.budget > 0 {
+			switch rapid.IntRange(0, 9).Draw(t, "sign") {
+			case 0:
+				n = &node{Op: "neg", Kids: []*node{n}}
+			case 1:
+				n = &node{Op: "pos", Kids: []*node{n}}
+			}
 		}
-		if depth > 0 && rapid.IntRange(0, 9).Draw(t, "index") == 0 {
+		if depth > 0 && rapid.IntRange(0, 9).Draw(t, "index") == 0 && cfg.spend() {
 			n = &node{Op: "index", Kids: []*node{n, genExpr(t, cfg, depth-1)}}
 		}
 		return n
